@@ -753,7 +753,8 @@ def to_hashable(  # noqa: C901, PLR0911, PLR0912
 
     # Handle numpy arrays
     if "numpy" in sys.modules and isinstance(obj, sys.modules["numpy"].ndarray):
-        return (m, tp, (obj.shape, obj.dtype.str, tuple(obj.flatten())))
+        flat = _hashable_iterable(obj.flatten().tolist(), fallback_to_pickle)
+        return (m, tp, (obj.shape, obj.dtype.str, flat))
 
     # Handle pandas Series and DataFrames
     if "pandas" in sys.modules:
